@@ -18,6 +18,15 @@ I = z3.IntSort()
 Live = z3.Function("Live", I, I, I, z3.BoolSort())   # the tile has a reachable leaf beneath it (or is an accepted leaf)
 
 
+def _venv(interp):
+    """environment of the function under verification (also when the current frame is an inlined helper)"""
+    for f_ in reversed(interp.frames):
+        if getattr(f_, "env", None) is not None:
+            return f_.env
+    from pyvc.interp import Env
+    return Env(module=interp.frame.module if interp.frame is not None else None)
+
+
 def _p(p):
     return [z3num(p.get("n")), z3num(p.get("x")), z3num(p.get("y"))]
 
@@ -67,7 +76,7 @@ def _walk_done_rely(interp, q, item):
     """What the dispatcher may assume about a completion report it receives (worker guarantee +
     queue contract): the tile was released, is reported for the first time; plus the ground
     instances of the liveness facts for this tile."""
-    env = interp.frame.env
+    env = _venv(interp)
     rq = env.lookup("ready_queue")
     self_ = env.lookup("self")
     A, D = self_.fields["_apex"], self_.fields["depth"]
